@@ -445,9 +445,9 @@ func (obj *LogisticRegression) f_dense(i int, theta DenseFloat64Vector) (float64
   if i >= len(x) {
     return y, w, x[i], fmt.Errorf("index out of bounds")
   }
-  obj.logisticRegression.Theta = theta
-
-  r := obj.logisticRegression.LogPdfDense(x[i])
+  // theta belongs to the calling worker, do not store
+  // it in the estimator which is shared by all workers
+  r := logisticRegression{theta}.LogPdfDense(x[i])
 
   if math.IsNaN(r) {
     return y, w, x[i], fmt.Errorf("NaN value detected")
@@ -471,9 +471,9 @@ func (obj *LogisticRegression) f_sparse(i int, theta DenseFloat64Vector) (float6
   if i >= len(x) {
     return y, w, x[i], fmt.Errorf("index out of bounds")
   }
-  obj.logisticRegression.Theta = theta
-
-  r := obj.logisticRegression.LogPdfSparse(x[i])
+  // theta belongs to the calling worker, do not store
+  // it in the estimator which is shared by all workers
+  r := logisticRegression{theta}.LogPdfSparse(x[i])
 
   if math.IsNaN(r) {
     return y, w, x[i], fmt.Errorf("NaN value detected")
